@@ -301,3 +301,58 @@ def rule_y_state(ctx):
     if n < 20:
         R.anchor("rayon-bodies", "expected >= 20 bodies in the rayon modules, found %d" % n)
     return R
+
+
+ORDER_REVERSING = {"pop_back", "next_back", "rev", "rfold", "try_rfold", "rfind", "nth_back", "back", "back_mut", "split_off", "reverse", "sort", "sort_by",
+                   "sort_by_key", "sort_unstable", "sort_unstable_by", "sort_unstable_by_key", "swap", "swap_remove", "rotate_left", "rotate_right",
+                   "last", "rposition", "cursor_back", "cursor_back_mut", "push_front", "prepend", "extract_if", "retain", "dedup"}
+
+
+def rule_y_order(ctx):
+    R = RuleResult("Y-order", "par_extend / from_par_iter hand the collected elements to the sequential extend in the order of the parallel iterator: the helper "
+                   "that gathers the chunks appends the right chunk list to the left one, and the chunks are consumed front to back with nothing that reorders them "
+                   "(with repeated keys the last occurrence must win, as in sequential extend)")
+    n = 0
+    for b in ctx.facts.bodies.values():
+        if "external_trait_impls::rayon" not in b.path:
+            continue
+        uses_collect = any(c.local_callee() is not None and c.local_callee().name == "collect" for c in ctx.calls(b))
+        is_collect_part = "rayon::helpers::" in b.path
+        if not (uses_collect or is_collect_part):
+            continue
+        n += 1
+        why = []
+        for c in ctx.calls(b):
+            if b.is_cleanup(c.loc.bb):
+                continue
+            st = c.self_adt or ""
+            nm = c.name or ""
+            if c.method in ORDER_REVERSING and (nm.startswith(("alloc::", "core::iter", "core::slice", "std::")) or st.startswith("alloc::")):
+                why.append("%s @ %s reorders or consumes from the back" % (c.tname, c.where()))
+            if c.method == "append" and "LinkedList" in (c.tname or ""):
+                p0, p1 = c.arg_path(0), c.arg_path(1)
+                ok = p0 is not None and p1 is not None and p0.root == 2 and p1.root == 3
+                ret_ok = False
+                for d in b.defs().get(0, []):
+                    if d[1] == "assign" and d[2]["rv"]["k"] == "use":
+                        q = b.op_path(d[2]["rv"]["op"])
+                        if q is not None and q.root == 2:
+                            ret_ok = True
+                if not (ok and ret_ok):
+                    why.append("the reduction does not append the right-hand chunk list to the left-hand one and return the left (order of chunks would change) @ %s" % c.where())
+        if uses_collect:
+            # the chunk list is consumed by forward iteration feeding Extend::extend
+            ext = [c for c in ctx.calls(b) if c.method == "extend" and not b.is_cleanup(c.loc.bb)]
+            nx = [c for c in ctx.calls(b) if (c.method == "next" and "linked_list" in (c.tname or "").lower()) or
+                  (c.method == "pop_front" and "LinkedList" in (c.tname or ""))]
+            if not ext or not nx:
+                why.append("the collected chunks are not consumed by a forward iteration feeding extend()")
+            else:
+                s, _ = b.slice_back(ext[0].loc, ext[0].args[1:])
+                if nx[0].loc not in s:
+                    why.append("extend() is not fed the chunk just taken from the front of the list")
+        R.inst(fn=b.path, verdict="ok" if not why else "VIOLATION")
+        if why:
+            R.viol(b.path, b.where(Loc(0, 0)), "; ".join(why))
+    R.floor(5, "bodies of the parallel-collect path")
+    return R
